@@ -169,7 +169,7 @@ def _case(spec, ctx):
     ctxmod.import_formak()
     m = spec["model"]
     X = np.array(spec["X"], float)
-    with ctx.watchdog(60):
+    with ctx.watchdog(60, "adapter-case-timeout"):
         with ctx.formak("Create", spec):
             ad = make_adapter(m)
         snap = snapshot(ad)
